@@ -316,6 +316,15 @@ pub fn step(m: &mut FragmentedMuxer, r: &mut RefModel, cfg: &FCfg, op: &FOp, out
             match &r.init {
                 None => {
                     check_init(&init, cfg, out);
+                    // "no matter when": the first answer of this muxer, whatever happened before
+                    // the request, equals the answer of a fresh muxer with the same configuration
+                    if let Ok(mut fresh) = make(cfg) {
+                        let want = fresh.init_segment();
+                        if init != want {
+                            let pos = want.iter().zip(&init).position(|(a, b)| a != b).unwrap_or(want.len().min(init.len()));
+                            out.push(("C11", "init/depends-on-request-time".into(), format!("the init segment first requested at this point differs from the one a fresh muxer returns at byte {pos} (lengths {} / {})", init.len(), want.len())));
+                        }
+                    }
                     r.init = Some(init);
                 }
                 Some(first) => {
@@ -707,7 +716,7 @@ fn collect_run(ctx: &Ctx, prop: &'static str, over: Option<(&'static [WSym], usi
     });
     let what = match prop {
         "C10" => "write accepted iff DTS not below the last accepted one, rejected writes and empty flushes leave the Debug state unchanged, flush returns None iff nothing is queued, mfhd sequence numbers 1,2,3..., trun sample count/sizes and the bytes found through data_offset equal the FIFO of accepted samples, mdat is exactly their concatenation, ready_to_flush / current_fragment_duration_ms equal the reference predicate",
-        "C11" => "trun durations = submitted DTS differences (last = previous), composition offsets = pts - dts, non-sync flag = not sync; base decode time never moves backwards nor before the previous segment's last sample; constant-interval streams with >= 2 samples per segment keep base - first DTS constant; init segment byte-identical on every request",
+        "C11" => "trun durations = submitted DTS differences (last = previous), composition offsets = pts - dts, non-sync flag = not sync; base decode time never moves backwards nor before the previous segment's last sample; constant-interval streams with >= 2 samples per segment keep base - first DTS constant; init segment byte-identical on every request and, at its first request after any history, identical to a fresh muxer's",
         "C02" => "every init segment and media segment parses strictly (exact tiling, mandatory hierarchy, count consistency, trex for the track, moof{mfhd,traf{tfhd,tfdt,trun}} + mdat)",
         _ => "rejected fragmented writes leave the complete Debug state unchanged",
     };
@@ -771,12 +780,74 @@ fn scaling(ctx: &Ctx, prop: &'static str) -> Tally {
     })
 }
 
+/// Values that look like box types: a decode time, a decode-time delta, a composition offset or a
+/// payload whose big-endian bytes spell one of the four-character codes the segment itself
+/// contains (at every byte alignment for the 64-bit decode time). Builders that locate a field by
+/// searching for a code, or that patch bytes in place, are only wrong for such values.
+fn lookalikes(ctx: &Ctx, prop: &'static str) -> Tally {
+    let codes: [&[u8; 4]; 9] = [b"trun", b"tfdt", b"tfhd", b"traf", b"mfhd", b"moof", b"mdat", b"styp", b"sidx"];
+    let cfgs: Vec<FCfg> = configs(false).into_iter().filter(|c| c.via_builder && c.start_dts == 9000).collect();
+    let mut items: Vec<(FCfg, u32, usize, usize)> = vec![];
+    for c in &cfgs {
+        for code in codes {
+            let v = u32::from_be_bytes(*code);
+            for field in 0..4usize {
+                for shift in 0..5usize {
+                    if field != 0 && shift != 0 {
+                        continue;
+                    }
+                    items.push((c.clone(), v, field, shift));
+                }
+            }
+        }
+    }
+    let _ = ctx;
+    par_items(&items, ctx.seed, |idx, (cfg, v, field, shift), t| {
+        let v = *v as u64;
+        let base: u64 = if *field == 0 { v << (8 * shift) } else { 9000 };
+        let delta: u64 = if *field == 1 { v } else { 3000 };
+        let cts: u64 = if *field == 2 { v & 0x7fff_ffff } else { 0 };
+        let mut h: Vec<FOp> = vec![];
+        for i in 0..4u64 {
+            let dts = base + i * delta;
+            let mut data = body(i as u32, 6);
+            if *field == 3 {
+                data.splice(1..1, (v as u32).to_be_bytes());
+                data.extend_from_slice(&(v as u32).to_be_bytes());
+            }
+            h.push(FOp::Write { pts: dts + cts, dts, data: oracle::model::hex(&data), sync: i == 0 });
+            if i == 1 {
+                h.push(FOp::Flush);
+            }
+        }
+        h.push(FOp::Flush);
+        h.push(FOp::Init);
+        t.evaluations += 1;
+        t.states += 1;
+        t.transitions += h.len() as u64;
+        match guarded(|| replay_history(cfg, &h)) {
+            Ok(Ok((_, _, issues))) => {
+                for (p, sig, detail) in issues {
+                    if p == prop {
+                        t.violation(&format!("{p}/lookalike/{sig}"), (6_500_000 + idx as u64, 0), || format!("{:?} value {v:#x} in field {field} shift {shift}: {detail}", cfg.codec), || json!({"engine": "E5", "cfg": cfg, "history": h, "brief": brief(&h)}));
+                    }
+                }
+            }
+            Ok(Err(_)) => {}
+            Err(p) => t.violation(&format!("{prop}/lookalike/panic"), (6_500_000 + idx as u64, 0), || format!("value {v:#x} field {field}: {p}"), || json!({"engine": "E5", "cfg": cfg, "history": h})),
+        }
+    })
+}
+
 pub fn check(ctx: &Ctx, prop: &'static str) -> i32 {
     let (mut tally, mut meta) = collect(ctx, prop);
+    let t3 = lookalikes(ctx, prop);
+    tally.count("lookalike_histories", t3.evaluations);
+    tally.merge(t3);
     let t2 = scaling(ctx, prop);
     tally.count("scaling_histories", t2.evaluations);
     tally.merge(t2);
-    meta.rule = format!("{} Scaling family: fragments of every sample count 1..={} x 3 decode-step patterns x 2 flush cadences x 4 codecs (one 66 KB sample in some), replayed with the same model.", meta.rule, if ctx.thorough { 200 } else { 80 });
+    meta.rule = format!("{} Scaling family: fragments of every sample count 1..={} x 3 decode-step patterns x 2 flush cadences x 4 codecs (one 66 KB sample in some), replayed with the same model. Look-alike family: decode time (5 byte alignments), decode delta, composition offset or payload spelling each of 9 box codes x 4 codecs.", meta.rule, if ctx.thorough { 200 } else { 80 });
     finish(ctx, &tally, meta)
 }
 
